@@ -44,6 +44,8 @@ func plainGlue(op, id, T, form string) (src string, ok bool) {
 		params, call, res = "m "+T, fmt.Sprintf("len(deriveKeys%s(m))", id), "int"
 	case "sortkeys": // nested: the inner call's result type is only known after a first pass
 		params, call, res = "m "+T, fmt.Sprintf("len(deriveSort%s(deriveKeys%s(m)))", id, id), "int"
+	case "fmapkeys": // nested: a functional plugin fed by another derive call
+		params, call, res = "m "+T, fmt.Sprintf("len(deriveFmap%s(func(k %s) bool { return true }, deriveKeys%s(m)))", id, mapKeyExpr(T), id), "int"
 	case "equalclone": // nested
 		params, call, res = "a "+T, fmt.Sprintf("deriveEqual%s(deriveClone%s(a), a)", id, id), "bool"
 	case "contains":
@@ -203,4 +205,21 @@ func RenderPlainPackage(u *Universe, items []PItem) map[string]string {
 		files["p/use_test.go"] = "package p\n\n" + ImportBlock(timps) + "\nfunc TestNothing(t *testing.T) {}\n\n" + test.String()
 	}
 	return files
+}
+
+// mapKeyExpr extracts K from a "map[K]V" type expression (K may contain brackets).
+func mapKeyExpr(t string) string {
+	depth := 0
+	for i := 3; i < len(t); i++ {
+		switch t[i] {
+		case '[':
+			depth++
+		case ']':
+			depth--
+			if depth == 0 {
+				return t[4:i]
+			}
+		}
+	}
+	return "int"
 }
